@@ -83,7 +83,7 @@ fn add<V: Full>(prop: &mut Property, ctx: &Ctx) {
             ks.secrets.iter().map(|s| keys::key_bytes(&keys::secret::<V>(&s.bytes).public_key())).collect()
         };
         let rule = format!(
-            "{} base tokens (payload length x footer x assertion) sealed by the library; for each: every single-bit flip of every payload and footer byte, every truncation (front and back), 1-byte extensions, every boundary shift (message/footer/assertion, 1-2 bytes, both directions), footer add/remove/replace, assertion add/remove/replace, every single-bit flip of the key ({}), every other key of the alphabet",
+            "{} base tokens (payload length x footer x assertion) sealed by the library; for each: every single-bit flip of every payload and footer byte, every truncation (front and back), 1-byte extensions, further dot-separated text segments appended to the token string, every boundary shift (message/footer/assertion, 1-2 bytes, both directions), footer add/remove/replace, assertion add/remove/replace, every single-bit flip of the key ({}), every other key of the alphabet",
             specs.len(),
             if local { "all 256 bits" } else { "every bit of the encoded public key that still parses to a different key" }
         );
@@ -338,6 +338,98 @@ fn noassert<V: Full>(prop: &mut Property) {
 }
 
 
+
+// ------------------------------------------------------------------ every piece length
+
+/// one piece (message, footer, assertion) takes every length 0..=MAX, the others are short and fixed; the token is
+/// sealed by the library and every piece is then altered (first / middle / last byte, same-length replacement)
+pub fn long_piece_specs<V: Full>(thorough: bool) -> Vec<(usize, usize, usize)> {
+    let max = if thorough { 1100 } else { 600 };
+    let mut v = Vec::new();
+    let a0 = if V::assertions() { 16 } else { 0 };
+    for l in 0..=max {
+        v.push((l, 3, a0));
+        v.push((5, l, a0));
+        if V::assertions() {
+            v.push((5, 3, l));
+        }
+    }
+    v
+}
+
+pub fn long_piece_base<V: Full>(local: bool, lk: &[u8], sk: &[u8], msg: &[u8], fl: usize, al: usize) -> Result<Base, String> {
+    let footer: Vec<u8> = (0..fl).map(|i| b"ftr-"[i % 4] ^ (i / 4) as u8).collect();
+    let aad: Vec<u8> = (0..al).map(|i| b"tenant=alice;v=1"[i % 16] ^ (i / 16) as u8).collect();
+    let ft = if footer.is_empty() { None } else { Some(&footer[..]) };
+    if local {
+        let k = keys::local::<V>(lk);
+        let t = subject(|| ops::enc::<V>(&k, msg, ft, &aad, &Nonce::Fixed(fixed_nonce::<V>()))).map_err(|p| format!("panic {p}"))?.map_err(|e| err_kind(&e).to_string())?;
+        Ok(Base { token: t, local: true, key: lk.to_vec(), aad, msg_len: msg.len() })
+    } else {
+        let k = keys::secret::<V>(sk);
+        let pk = keys::key_bytes(&k.public_key());
+        let t = subject(|| ops::sign::<V>(&k, msg, ft, &aad, &Nonce::Lib)).map_err(|p| format!("panic {p}"))?.map_err(|e| err_kind(&e).to_string())?;
+        Ok(Base { token: t, local: false, key: pk, aad, msg_len: msg.len() })
+    }
+}
+
+fn long_pieces<V: Full>(prop: &mut Property, ctx: &Ctx) {
+    let name = V::NAME;
+    let ks = Arc::new(keys::keyset::<V>(false, 0));
+    for local in [true, false] {
+        let specs = Arc::new(long_piece_specs::<V>(ctx.thorough()));
+        let pname = if local { "local" } else { "public" };
+        let ks = ks.clone();
+        let n = specs.len() as u64;
+        prop.subs.push(
+            Sub::new(
+                format!("{name}/{pname}/piece-lengths"),
+                n,
+                format!("one of message / footer / assertion takes EVERY length 0..={} while the others are short (message 5, footer 3, assertion 16 bytes): the token is sealed by the library, accepted unchanged, and rejected after each of: first / middle / last byte of the footer, of the assertion and (public) of the message changed, each piece replaced by other bytes of the same length", if ctx.thorough() { 1100 } else { 600 }),
+                move |idx, describe| {
+                    let (ml, fl, al) = specs[idx as usize];
+                    let mut o = Outcome::new();
+                    o.evals = 0;
+                    if describe {
+                        o.sample = Some(json!({"backend": name, "purpose": pname, "message_len": ml, "footer_len": fl, "assertion_len": al}));
+                    }
+                    let msg = ops::content(ml, 3);
+                    let base = match long_piece_base::<V>(local, &ks.locals[2].bytes, &ks.secrets[0].bytes, &msg, fl, al) {
+                        Ok(b) => b,
+                        Err(e) => {
+                            o.violate_env(format!("{name}/{pname}/piece-lengths/seal"), format!("cannot seal lengths {:?}: {e}", (ml, fl, al)), json!({}));
+                            return o;
+                        }
+                    };
+                    o.evals += 1;
+                    match try_unseal::<V>(local, &base.token, &base.key, &base.aad) {
+                        Ok(Ok((c, f))) if c == msg && f.len() == fl => o.class("base-accepted"),
+                        other => {
+                            o.violate(format!("{name}/{pname}/piece-lengths/base-rejected"), format!("untouched token with lengths {:?} not accepted: {:?}", (ml, fl, al), other.map(|r| r.map(|c| c.0.len()))), json!({"token": base.token}));
+                            return o;
+                        }
+                    }
+                    for f in faults::piece_faults::<V>(&base) {
+                        o.evals += 1;
+                        match try_unseal::<V>(local, &f.token, &base.key, &f.aad) {
+                            Ok(Err(_)) => o.class("altered-rejected"),
+                            Ok(Ok(_)) => o.violate(
+                                format!("{name}/{pname}/{}", f.class),
+                                format!("token with (message, footer, assertion) lengths {:?} accepted after: {}", (ml, fl, al), f.label),
+                                json!({"base": base.token, "token": f.token, "assertion": hexs(&f.aad)}),
+                            ),
+                            Err(p) => o.violate(format!("{name}/{pname}/{}/panic", f.class), format!("unseal panicked ({}): {p}", f.label), json!({"token": f.token})),
+                        }
+                    }
+                    o.nontrivial = o.evals;
+                    o
+                },
+            )
+            .witness(&["base-accepted", "altered-rejected"]),
+        );
+    }
+}
+
 // ------------------------------------------------------------------ boundary shifts with content that imitates length fields
 
 /// Zero-filled message / footer / assertion whose lengths come from a grid around the byte boundaries of a 64-bit
@@ -563,6 +655,12 @@ pub fn build(ctx: &Ctx) -> Property {
     typed_footer::<backends::V3L>(&mut p);
     typed_footer::<backends::V4>(&mut p);
     typed_footer::<backends::V4S>(&mut p);
+    long_pieces::<backends::V1>(&mut p, ctx);
+    long_pieces::<backends::V2>(&mut p, ctx);
+    long_pieces::<backends::V3>(&mut p, ctx);
+    long_pieces::<backends::V3L>(&mut p, ctx);
+    long_pieces::<backends::V4>(&mut p, ctx);
+    long_pieces::<backends::V4S>(&mut p, ctx);
     length_imitating::<backends::V1>(&mut p, ctx);
     length_imitating::<backends::V2>(&mut p, ctx);
     length_imitating::<backends::V3>(&mut p, ctx);
